@@ -484,3 +484,86 @@ func (fc *fileCtx) rewriteFieldAccesses() {
 		})
 	}
 }
+
+// ---- level 3: objects of other packages that are not safe for concurrent use ----
+
+// foreignUnsafe lists types of the standard library whose methods must not be
+// called concurrently on one value.  A method call on such a value is recorded as
+// an access to the object (vmem.OW / vmem.OR) for the happens-before detector:
+// rulio's own maps and fields are instrumented directly, but a race *inside* a
+// foreign object reached through a rulio variable would otherwise be invisible.
+var foreignUnsafe = map[string]bool{
+	"math/rand.Rand": true, "bytes.Buffer": true, "bytes.Reader": true,
+	"strings.Builder": true, "strings.Reader": true, "strings.Replacer": false,
+	"bufio.Reader": true, "bufio.Writer": true, "bufio.Scanner": true, "bufio.ReadWriter": true,
+	"container/list.List": true, "container/ring.Ring": true,
+	"encoding/json.Encoder": true, "encoding/json.Decoder": true,
+	"encoding/gob.Encoder": false, "encoding/gob.Decoder": false,
+	"math/big.Int": true, "math/big.Float": true, "math/big.Rat": true,
+	"text/tabwriter.Writer": true, "encoding/csv.Writer": true, "encoding/csv.Reader": true,
+	"compress/gzip.Writer": true, "compress/gzip.Reader": true,
+}
+
+// methods that only read the object
+var foreignReadOnly = map[string]bool{"Len": true, "String": true, "Bytes": true, "Cap": true, "Size": true, "Buffered": true, "Available": true, "Front": true, "Back": true}
+
+func (fc *fileCtx) rewriteForeignCalls() {
+	pkgName := fc.file.Name.Name
+	for _, d := range fc.file.Decls {
+		fd, ok := d.(*ast.FuncDecl)
+		if !ok || fd.Body == nil {
+			continue
+		}
+		fn := funcName(fd, pkgName)
+		replaceExprs(fd.Body, func(e ast.Expr) ast.Expr {
+			ce, ok := e.(*ast.CallExpr)
+			if !ok {
+				return nil
+			}
+			se, ok := ce.Fun.(*ast.SelectorExpr)
+			if !ok {
+				return nil
+			}
+			sel := fc.info.Selections[se]
+			if sel == nil || sel.Kind() != types.MethodVal || len(sel.Index()) != 1 {
+				return nil
+			}
+			rt := sel.Recv()
+			isPtr := false
+			if p, ok := rt.(*types.Pointer); ok {
+				rt, isPtr = p.Elem(), true
+			}
+			n, ok := rt.(*types.Named)
+			if !ok || n.Obj() == nil || n.Obj().Pkg() == nil {
+				return nil
+			}
+			if !foreignUnsafe[n.Obj().Pkg().Path()+"."+n.Obj().Name()] {
+				return nil
+			}
+			arg := se.X
+			if !isPtr {
+				f, ok := sel.Obj().(*types.Func)
+				if !ok {
+					return nil
+				}
+				sig, ok := f.Type().(*types.Signature)
+				if !ok || sig.Recv() == nil {
+					return nil
+				}
+				if _, pr := sig.Recv().Type().(*types.Pointer); !pr {
+					return nil
+				}
+				arg = &ast.UnaryExpr{Op: token.AND, X: se.X}
+			}
+			f := "OW"
+			if foreignReadOnly[se.Sel.Name] {
+				f = "OR"
+			}
+			site := fn + ":" + fc.exprText(se.X)
+			se.X = call("vmem__", f, arg, &ast.BasicLit{Kind: token.STRING, Value: strconv.Quote(site)})
+			fc.needVmem = true
+			fc.rp.ForeignCalls++
+			return nil
+		})
+	}
+}
